@@ -450,6 +450,9 @@ GetKey(st, n0) ==
   LET n == Alias(n0)
       l == Lookup(st.sc, n)
   IN IF l.found THEN l ELSE PtGet(st.pt, n)
+\* the subject of the builtins that read their key as text (trim, uppercase, url_decode, replace, grok, xml, sql_cover, default_time):
+\* a variable holding "no value" is no subject - the builtin does what it does for an absent key
+Subj(st, n0) == LET g == GetKey(st, n0) IN IF g.found /\ g.v.t = "void" THEN [found |-> FALSE, v |-> VNil] ELSE g
 
 R(st, v) == [st |-> st, ok |-> TRUE, v |-> v, cls |-> ""]
 E(st, c) == [st |-> st, ok |-> FALSE, v |-> VNil, cls |-> c]
@@ -759,7 +762,7 @@ EvalCall(e, st) ==
                ELSE R([st3 EXCEPT !.log = Append(@, [ev |-> "call", k |-> "set_measurement"])], VVoid))
       [] e.f \in {"trim", "uppercase", "url_decode", "replace"} ->
            (LET kn == KeyNameOf(e.as[1])
-                g == GetKey(st, kn.n)
+                g == Subj(st, kn.n)
                 lg == [st EXCEPT !.log = Append(@, [ev |-> "call", k |-> e.f])] IN
             IF e.f = "replace" /\ RegexBad(e.as[2].s) THEN E(st, "bad-regexp")       \* compiled before the subject is read
             ELSE IF ~g.found THEN R(lg, VVoid)
@@ -811,7 +814,7 @@ EvalCall(e, st) ==
       [] e.f = "add_pattern" -> R(st, VVoid)          \* load-time only (Patterns!Annotate)
       [] e.f = "grok" ->
            (LET kn == KeyNameOf(e.as[1])
-                g == GetKey(st, kn.n)
+                g == Subj(st, kn.n)
                 lg == [st EXCEPT !.log = Append(@, [ev |-> "call", k |-> "grok"])] IN
             IF ~g.found THEN R(lg, VBool(FALSE))
             ELSE IF g.v.t \in {"ref", "json", "tagstr"} THEN E(st, "unspec-subject")
@@ -824,7 +827,7 @@ EvalCall(e, st) ==
                                Store(i, pt) == IF i > Len(q.e.caps) THEN pt ELSE Store(i + 1, PtSetField(pt, q.e.caps[i].n, q.e.caps[i].v))
                            IN R([lg EXCEPT !.pt = Store(1, @)], VBool(TRUE)))
       [] e.f = "xml" ->
-           (LET g == GetKey(st, KeyNameOf(e.as[1]).n)
+           (LET g == Subj(st, KeyNameOf(e.as[1]).n)
                 lg == [st EXCEPT !.log = Append(@, [ev |-> "call", k |-> "xml"])] IN
             IF ~g.found THEN R(lg, VVoid)
             ELSE IF g.v.t \in {"ref", "json", "tagstr"} THEN E(st, "unspec-subject")
@@ -836,7 +839,7 @@ EvalCall(e, st) ==
                       ELSE R([lg EXCEPT !.pt = PtSetField(@, Alias(KeyNameOf(e.as[3]).n), VStr(q.e.out))], VVoid))
       [] e.f = "sql_cover" ->
            (LET kn == KeyNameOf(e.as[1])
-                g == GetKey(st, kn.n)
+                g == Subj(st, kn.n)
                 lg == [st EXCEPT !.log = Append(@, [ev |-> "call", k |-> "sql_cover"])] IN
             IF ~g.found THEN R(lg, VVoid)
             ELSE IF g.v.t \in {"ref", "json", "tagstr"} THEN E(st, "unspec-subject")
@@ -858,7 +861,7 @@ EvalCall(e, st) ==
                  ELSE R([lg EXCEPT !.pt = PtSetField(@, Alias(kn.n), VStr(q.e.out))], VVoid))
       [] e.f = "default_time" ->
            (LET kn == KeyNameOf(e.as[1])
-                g == GetKey(st, kn.n)
+                g == Subj(st, kn.n)
                 lg == [st EXCEPT !.log = Append(@, [ev |-> "call", k |-> "default_time"])] IN
             IF ~g.found THEN R(lg, VVoid)
             ELSE IF g.v.t \in {"ref", "json", "tagstr"} THEN E(st, "unspec-subject")
